@@ -91,36 +91,66 @@ type ZDoc struct{ ZBase }
 
 func (d ZDoc) Title() string { return "title-method-of-doc" }
 
+// a slot of an interface type that has methods (not interface{}): what is behind it is reached all the same
+type ZShape interface{ Area() int }
+type ZRect struct {
+	W, H  int
+	Label string
+}
+
+func (r ZRect) Area() int        { return r.W * r.H }
+func (r ZRect) Describe() string { return "rect-" + r.Label }
+
+// exported fields promoted from an embedded struct whose type name is unexported
+type zhidden struct {
+	HID   int
+	HName string
+}
+type ZDocU struct {
+	zhidden
+	Title string
+}
+type ZDocUP struct {
+	*zhidden
+	Title string
+}
+
 type ZOuter struct {
 	ZBase
 	*ZPEmb
-	Name  string
-	Num   int
-	U8    uint8
-	F     float64
-	B     bool
-	In    ZInner
-	PIn   *ZInner
-	PPIn  **ZInner
-	Items []int
-	Strs  []string
-	Anys  []interface{}
-	Arr   [3]int
-	M     map[string]int
-	MI    map[int]string
-	MN    map[ZKey]string
-	MA    map[string]interface{}
-	MP    map[string]*ZInner
-	MK    map[interface{}]string
-	ME    map[string]string // has the empty string as a key
-	Iface interface{}
-	SF    ZShadowFirst
-	SL    ZShadowLast
-	DP    ZDeep
-	Word  string
-	Nest  ZN0
-	Win   []string // a window on a longer backing array: cap > len
-	PS    ZPtrShallow
+	Name   string
+	Num    int
+	U8     uint8
+	F      float64
+	B      bool
+	In     ZInner
+	PIn    *ZInner
+	PPIn   **ZInner
+	Items  []int
+	Strs   []string
+	Anys   []interface{}
+	Arr    [3]int
+	M      map[string]int
+	MI     map[int]string
+	MN     map[ZKey]string
+	MA     map[string]interface{}
+	MP     map[string]*ZInner
+	MK     map[interface{}]string
+	ME     map[string]string // has the empty string as a key
+	Iface  interface{}
+	SF     ZShadowFirst
+	SL     ZShadowLast
+	DP     ZDeep
+	Word   string
+	Nest   ZN0
+	Win    []string // a window on a longer backing array: cap > len
+	PS     ZPtrShallow
+	Shape  ZShape
+	PShape ZShape
+	Shapes []ZShape
+	MShape map[string]ZShape
+	DocU   ZDocU
+	DocUP  ZDocUP
 	// unnamed struct types: their method sets hold the methods promoted from what they embed
 	Anon struct {
 		ZInner
@@ -170,8 +200,14 @@ func zooRoot(variant int) interface{} {
 			*ZInner
 			Extra string
 		}{&ZInner{Val: 22, Name: "panon-inner"}, "panon-extra"},
-		Doc: ZDoc{ZBase{ID: 5, Title: "title-field-hidden-by-the-method"}},
-		PS:  ZPtrShallow{ZXB: ZXB{ZXA{X: 1, OnlyA: "only-a"}}, ZXP: &ZXP{X: 2, OnlyP: "only-p"}},
+		Doc:    ZDoc{ZBase{ID: 5, Title: "title-field-hidden-by-the-method"}},
+		Shape:  ZRect{W: 2, H: 3, Label: "val"},
+		PShape: &ZRect{W: 4, H: 5, Label: "ptr"},
+		Shapes: []ZShape{ZRect{W: 1, H: 1, Label: "s0"}, &ZRect{W: 2, H: 2, Label: "s1"}},
+		MShape: map[string]ZShape{"sq": ZRect{W: 3, H: 3, Label: "sq"}},
+		DocU:   ZDocU{zhidden: zhidden{HID: 71, HName: "hidden-val"}, Title: "docu"},
+		DocUP:  ZDocUP{zhidden: &zhidden{HID: 72, HName: "hidden-ptr"}, Title: "docup"},
+		PS:     ZPtrShallow{ZXB: ZXB{ZXA{X: 1, OnlyA: "only-a"}}, ZXP: &ZXP{X: 2, OnlyP: "only-p"}},
 	}
 	switch variant {
 	case 0:
